@@ -71,6 +71,8 @@ type RowSet struct {
 	// BreakAfter > 0: the result set fails after delivering that many rows
 	// (rows.Next() == false, rows.Err() == errRowsBroken); < 0: it fails on the first fetch
 	BreakAfter int
+	// Err != nil: the database rejects the query (the stub's answer is an error)
+	Err error
 }
 
 var errRowsBroken = errors.New("verif: result set broken")
@@ -298,10 +300,16 @@ func (s *Store) Query(tx *txState, ctx int, text string, args []driver.Value) (R
 		return RowSet{}, err
 	}
 	s.Log = append(s.Log, Event{Kind: "QUERY", Text: text, Args: args, Ctx: ctx, Tx: txid})
-	s.OpenRows++
 	if s.OnQuery != nil {
-		return s.OnQuery(text, args), nil
+		rs := s.OnQuery(text, args)
+		if rs.Err != nil {
+			s.Log[len(s.Log)-1].Fail = true
+			return RowSet{}, rs.Err
+		}
+		s.OpenRows++
+		return rs, nil
 	}
+	s.OpenRows++
 	return RowSet{}, nil
 }
 
